@@ -48,10 +48,14 @@ def _grid(tier):
                     if tier == 'quick' and (ol != orr) and perm:
                         continue
                     out.append({'shape': s, 'variant': variant, 'ortho_l': ol, 'ortho_r': orr, 'perm': perm})
+    # relative rank cut (threshold > 0): symbolic threshold, the explorer forks over the kept rank; the cut applies to x only
+    for s in shapes[:4]:
+        for variant in ('exact', 'standard'):
+            out.append({'shape': s, 'variant': variant, 'ortho_l': True, 'ortho_r': True, 'perm': 0, 'theta': True})
     return out
 
 
-def _order_policy(ctx, perm_seed):
+def _order_policy(ctx, perm_seed, sorted_svd=False):
     from symtt import lapack, state
     from symtt.scalar import Sc
     from .common import _OW
@@ -73,11 +77,11 @@ def _order_policy(ctx, perm_seed):
             return lam, V
     if 'tab' not in _OW:
         _OW['tab'] = lapack.calibrate_overwrite()
-    return P(model_overwrite=True, overwrite_table=_OW['tab'], positive_spectrum=True)
+    return P(model_overwrite=True, overwrite_table=_OW['tab'], positive_spectrum=True, **({'assume_sorted_spectrum': True} if sorted_svd else {}))
 
 
 @scenario('C17', 'tdmd', _grid)
-def tdmd(ctx, shape, variant, ortho_l, ortho_r, perm):
+def tdmd(ctx, shape, variant, ortho_l, ortho_r, perm, theta=False):
     """reduced matrix == U^T Y V S^-1; eigenvalues sorted descending; modes; inputs unchanged"""
     TT, mod = ctx.R.TT, ctx.R.tdmd
     if ctx.mode == 'tv':
@@ -88,7 +92,11 @@ def tdmd(ctx, shape, variant, ortho_l, ortho_r, perm):
     sy = {'rows': dims + [m], 'cols': [1] * d, 'ranks': shape['ry']}
     Xd = D.tt_full(ctx, mk_cores(ctx, 'x', sx, False)).reshape(-1, m)
     Yd = D.tt_full(ctx, mk_cores(ctx, 'y', sy, False)).reshape(-1, m)
-    fn = mod.tdmd_exact if variant == 'exact' else mod.tdmd_standard
+    fn0 = mod.tdmd_exact if variant == 'exact' else mod.tdmd_standard
+    th = 0
+    if theta:
+        th = ctx.scalar('theta', lo=0.05, hi=0.6) if not ctx.sym else ctx.scalar('theta', lo=(0,), hi=(1,))
+    fn = (lambda x_, y_, **kw: fn0(x_, y_, threshold=th, **kw)) if theta else fn0
     if not ctx.sym:
         x = TT(mk_cores(ctx, 'x', sx, False))
         y = TT(mk_cores(ctx, 'y', sy, False))
@@ -101,7 +109,11 @@ def tdmd(ctx, shape, variant, ortho_l, ortho_r, perm):
         ev, modes = fn(x, y, ortho_l=ortho_l, ortho_r=ortho_r)
         Xn, Yn = np.asarray(Xd), np.asarray(Yd)
         U, s, Vh = np.linalg.svd(Xn, full_matrices=False)
-        k = len(ev)
+        k = int(np.sum(s / s[0] > float(th))) if theta else len(ev)
+        if theta:
+            ctx.check('tdmd_%s: number of eigenvalues == number of singular values of the unfolded x above the relative cut' % variant, len(ev) == k,
+                      detail='%d vs %d' % (len(ev), k))
+            k = min(k, len(ev))
         U, s, Vh = U[:, :k], s[:k], Vh[:k, :]
         At = U.T @ Yn @ Vh.T @ np.diag(1 / s)
         ref = np.sort(np.linalg.eigvals(At))[::-1]
@@ -119,14 +131,14 @@ def tdmd(ctx, shape, variant, ortho_l, ortho_r, perm):
         # reference factors: the global SVD of x with the same (deterministic) stub symbols
         ex = state.S.explorer
         state.reset(); state.S.explorer = ex
-        lapack.set_policy(_order_policy(ctx, perm))
+        lapack.set_policy(_order_policy(ctx, perm, theta))
         xr = TT(mk_cores(ctx, 'x', sx, False))
-        u, s, v = xr.svd(d - 1, ortho_l=ortho_l, ortho_r=ortho_r)
+        u, s, v = xr.svd(d - 1, ortho_l=ortho_l, ortho_r=ortho_r, threshold=th)
         n_svd = len([c for c in state.S.stub_log if c.kind == 'svd'])
         state.reset(); state.S.explorer = ex
         for a in ctx.assumptions:
             ex.assume(a)
-        pol = lapack.set_policy(_order_policy(ctx, perm))
+        pol = lapack.set_policy(_order_policy(ctx, perm, theta))
         x = TT(mk_cores(ctx, 'x', sx, False))
         y = TT(mk_cores(ctx, 'y', sy, False))
         ev, modes = fn(x, y, ortho_l=ortho_l, ortho_r=ortho_r)
